@@ -297,11 +297,13 @@ theorem soc_stepLength_okOr {E : String → Prop}
 
 /-- [S] the closures handed to the composite `step_length` exist; each returns a value, runs out
 of the backtracking fuel, or (when `FmaxOK` is not assumed) hits the second-order cone's
-"starting point of line search not in SOC" site -/
-theorem stepFns_ok' {E : String → Prop}
+"starting point of line search not in SOC" site.  The fuel site is only needed when the composite
+has a nonsymmetric cone (only the closures of exp / pow / genpow cones call `backtrack_search`). -/
+theorem stepFns_okC {E : String → Prop}
     (hs : FmaxOK α ∨ E "starting point of line search not in SOC")
-    (hb : E "backtrack_search: fuel")
-    (ls : LineSearch α) {cones : List (ConeSt α)} {dz ds z s : Array α} (h : ConesFull cones)
+    (ls : LineSearch α) {cones : List (ConeSt α)}
+    (hb : hasNonsym (cones.map ConeSt.kktSpec) → E "backtrack_search: fuel")
+    {dz ds z s : Array α} (h : ConesFull cones)
     (h1 : dz.size = numelAll cones) (h2 : ds.size = numelAll cones) (h3 : z.size = numelAll cones)
     (h4 : s.size = numelAll cones) :
     ∃ fns, stepFns ls cones dz ds z s = .ok fns
@@ -320,7 +322,7 @@ theorem stepFns_ok' {E : String → Prop}
   obtain ⟨hmem, q1, q2, q3, q4⟩ := forall₂_mem_zip hrel p hp
   have hfull := h _ hmem
   obtain ⟨c, p1, p2, p3, p4⟩ := p
-  dsimp only at q1 q2 q3 q4 hfull ⊢
+  dsimp only at q1 q2 q3 q4 hfull hmem ⊢
   cases c with
   | sym c =>
     cases c with
@@ -333,6 +335,8 @@ theorem stepFns_ok' {E : String → Prop}
       have e : (ConeSt.sym (Solver.ConeSt.soc K)).numel = K.dim := rfl
       exact soc_stepLength_okOr hs a (by omega) (by omega) (by omega) (by omega)
   | exp K =>
+    have hb' : E "backtrack_search: fuel" :=
+      hb ⟨_, List.mem_map.mpr ⟨_, hmem, rfl⟩, Or.inl rfl⟩
     have e : (ConeSt.exp K).numel = 3 := rfl
     obtain ⟨v1, hv1⟩ := v3E_ok (a := p1) "dz" (q1.trans e)
     obtain ⟨v2, hv2⟩ := v3E_ok (a := p2) "ds" (q2.trans e)
@@ -340,8 +344,10 @@ theorem stepFns_ok' {E : String → Prop}
     obtain ⟨v4, hv4⟩ := v3E_ok (a := p4) "s" (q4.trans e)
     dsimp only
     rw [bind_ok_of hv1, bind_ok_of hv2, bind_ok_of hv3, bind_ok_of hv4]
-    exact exp_stepLength_okOr hb ..
+    exact exp_stepLength_okOr hb' ..
   | pow al K =>
+    have hb' : E "backtrack_search: fuel" :=
+      hb ⟨_, List.mem_map.mpr ⟨_, hmem, rfl⟩, Or.inr (Or.inl rfl)⟩
     have e : (ConeSt.pow al K).numel = 3 := rfl
     obtain ⟨v1, hv1⟩ := v3E_ok (a := p1) "dz" (q1.trans e)
     obtain ⟨v2, hv2⟩ := v3E_ok (a := p2) "ds" (q2.trans e)
@@ -349,8 +355,24 @@ theorem stepFns_ok' {E : String → Prop}
     obtain ⟨v4, hv4⟩ := v3E_ok (a := p4) "s" (q4.trans e)
     dsimp only
     rw [bind_ok_of hv1, bind_ok_of hv2, bind_ok_of hv3, bind_ok_of hv4]
-    exact pow_stepLength_okOr hb ..
-  | genpow al d2 ψ K => exact genpow_stepLength_okOr hb ..
+    exact pow_stepLength_okOr hb' ..
+  | genpow al d2 ψ K =>
+    have hb' : E "backtrack_search: fuel" :=
+      hb ⟨_, List.mem_map.mpr ⟨_, hmem, rfl⟩, Or.inr (Or.inr ⟨_, _, rfl⟩)⟩
+    exact genpow_stepLength_okOr hb' ..
+
+/-- [S] the closures handed to the composite `step_length` exist; each returns a value, runs out
+of the backtracking fuel, or (when `FmaxOK` is not assumed) hits the second-order cone's
+"starting point of line search not in SOC" site -/
+theorem stepFns_ok' {E : String → Prop}
+    (hs : FmaxOK α ∨ E "starting point of line search not in SOC")
+    (hb : E "backtrack_search: fuel")
+    (ls : LineSearch α) {cones : List (ConeSt α)} {dz ds z s : Array α} (h : ConesFull cones)
+    (h1 : dz.size = numelAll cones) (h2 : ds.size = numelAll cones) (h3 : z.size = numelAll cones)
+    (h4 : s.size = numelAll cones) :
+    ∃ fns, stepFns ls cones dz ds z s = .ok fns
+      ∧ ∀ c ∈ fns, ∀ a, OkOr E (c.stepLength a) (fun _ => True) :=
+  stepFns_okC hs ls (fun _ => hb) h h1 h2 h3 h4
 
 /-- [S] the closures handed to the composite `step_length` exist; each returns a value or runs out
 of the backtracking fuel -/
@@ -361,6 +383,20 @@ theorem stepFns_ok {E : String → Prop} (hf : FmaxOK α) (hb : E "backtrack_sea
     ∃ fns, stepFns ls cones dz ds z s = .ok fns
       ∧ ∀ c ∈ fns, ∀ a, OkOr E (c.stepLength a) (fun _ => True) :=
   stepFns_ok' (Or.inl hf) hb ls h h1 h2 h3 h4
+
+/-- [S] `CompositeCone::step_length`, with the fuel site conditional on the presence of a
+nonsymmetric cone -/
+theorem stepLength_okC {E : String → Prop}
+    (hs : FmaxOK α ∨ E "starting point of line search not in SOC")
+    (ls : LineSearch α) (cones : List (ConeSt α)) (dz ds z s : Array α) (msf amax : α)
+    (hb : hasNonsym (cones.map ConeSt.kktSpec) → E "backtrack_search: fuel")
+    (h : ConesFull cones) (h1 : dz.size = numelAll cones) (h2 : ds.size = numelAll cones)
+    (h3 : z.size = numelAll cones) (h4 : s.size = numelAll cones) :
+    OkOr E (stepLength ls cones dz ds z s msf amax) (fun _ => True) := by
+  obtain ⟨fns, hfns, hall⟩ := stepFns_okC hs ls hb h h1 h2 h3 h4
+  unfold stepLength
+  rw [bind_ok_of hfns]
+  exact compStepLength_okOr fns msf amax hall
 
 /-- [S] `CompositeCone::step_length` on full cones and vectors of the cone's dimension returns a
 value, runs out of the backtracking fuel, or (when `FmaxOK` is not assumed) panics at the
@@ -495,8 +531,9 @@ theorem genpow_computeBarrier_ok (al : Array α) (ψ : α) {z s dz ds : Array α
 
 /-- [S] `compute_barrier` of one cone on slices of the cone's dimension: a value, or the
 `_wright_omega` panic of an exponential cone -/
-theorem computeBarrier1_okOr {E : String → Prop} (hw : E "argument not in supported range")
-    {c : ConeSt α} {z s dz ds : Array α} (a : α) (hc : ConeFull c) (hz : z.size = c.numel)
+theorem computeBarrier1_okOrC {E : String → Prop} {c : ConeSt α}
+    (hw : c.kktSpec = Kkt.ConeSpec.exp → E "argument not in supported range")
+    {z s dz ds : Array α} (a : α) (hc : ConeFull c) (hz : z.size = c.numel)
     (hs : s.size = c.numel) (hdz : dz.size = c.numel) (hds : ds.size = c.numel) :
     OkOr E (computeBarrier1 c z s dz ds a) (fun _ => True) := by
   cases c with
@@ -519,7 +556,7 @@ theorem computeBarrier1_okOr {E : String → Prop} (hw : E "argument not in supp
     unfold computeBarrier1
     dsimp only
     rw [bind_ok_of hv1, bind_ok_of hv2, bind_ok_of hv3, bind_ok_of hv4]
-    exact exp_computeBarrier_okOr hw ..
+    exact exp_computeBarrier_okOr (hw rfl) ..
   | pow al K =>
     have e : (ConeSt.pow al K).numel = 3 := rfl
     obtain ⟨v1, hv1⟩ := v3E_ok (a := z) "z" (hz.trans e)
@@ -535,10 +572,19 @@ theorem computeBarrier1_okOr {E : String → Prop} (hw : E "argument not in supp
     exact OkOr.of_exists (genpow_computeBarrier_ok al ψ a (by omega) (by omega)
       (hdz.trans hz.symm) (hds.trans hs.symm))
 
+theorem computeBarrier1_okOr {E : String → Prop} (hw : E "argument not in supported range")
+    {c : ConeSt α} {z s dz ds : Array α} (a : α) (hc : ConeFull c) (hz : z.size = c.numel)
+    (hs : s.size = c.numel) (hdz : dz.size = c.numel) (hds : ds.size = c.numel) :
+    OkOr E (computeBarrier1 c z s dz ds a) (fun _ => True) :=
+  computeBarrier1_okOrC (fun _ => hw) a hc hz hs hdz hds
+
 /-- [S] `CompositeCone::compute_barrier` on full cones and vectors of the cone's dimension returns a
-value or panics in `_wright_omega` -/
-theorem computeBarrier_ok {E : String → Prop} (hw : E "argument not in supported range")
-    (cones : List (ConeSt α)) (z s dz ds : Array α) (a : α) (h : ConesFull cones)
+value or panics in `_wright_omega`; the site is only needed when the composite has an exponential
+cone -/
+theorem computeBarrier_okC {E : String → Prop}
+    (cones : List (ConeSt α)) (z s dz ds : Array α) (a : α)
+    (hw : hasExp (cones.map ConeSt.kktSpec) → E "argument not in supported range")
+    (h : ConesFull cones)
     (h1 : z.size = numelAll cones) (h2 : s.size = numelAll cones) (h3 : dz.size = numelAll cones)
     (h4 : ds.size = numelAll cones) :
     OkOr E (computeBarrier cones z s dz ds a) (fun _ => True) := by
@@ -552,7 +598,17 @@ theorem computeBarrier_ok {E : String → Prop} (hw : E "argument not in support
   refine foldlM_okOr _ _ ?_ 0
   intro p hp acc
   obtain ⟨hmem, q1, q2, q3, q4⟩ := forall₂_mem_zip hrel p hp
-  exact (computeBarrier1_okOr hw a (h _ hmem) q1 q2 q3 q4).bind fun _ _ => trivial
+  refine (computeBarrier1_okOrC (fun he => hw ?_) a (h _ hmem) q1 q2 q3 q4).bind fun _ _ => trivial
+  exact List.mem_map.mpr ⟨_, hmem, he⟩
+
+/-- [S] `CompositeCone::compute_barrier` on full cones and vectors of the cone's dimension returns a
+value or panics in `_wright_omega` -/
+theorem computeBarrier_ok {E : String → Prop} (hw : E "argument not in supported range")
+    (cones : List (ConeSt α)) (z s dz ds : Array α) (a : α) (h : ConesFull cones)
+    (h1 : z.size = numelAll cones) (h2 : s.size = numelAll cones) (h3 : dz.size = numelAll cones)
+    (h4 : ds.size = numelAll cones) :
+    OkOr E (computeBarrier cones z s dz ds a) (fun _ => True) :=
+  computeBarrier_okC cones z s dz ds a (fun _ => hw) h h1 h2 h3 h4
 
 /-! ### `symmetric_initialization` -/
 
@@ -672,6 +728,28 @@ theorem stepLength_ok' {E : String → Prop}
     OkOr E (stepLength ls cones dz ds z s msf amax) (fun _ => True) :=
   ConesB.stepLength_ok' hs hb ls cones dz ds z s msf amax h h1 h2 h3 h4
 
+/-- [S] field `stepLength` of `ConeStage E specs`, sharpened: the fuel site of `backtrack_search` is
+only needed when the composite (seen through its KKT view) has an exponential, power or generalised
+power cone -/
+theorem stepLength_okC {E : String → Prop}
+    (hs : Solver.FmaxOK α ∨ E "starting point of line search not in SOC")
+    (ls : LineSearch α) (cones : List (ConeSt α)) (dz ds z s : Array α) (msf amax : α)
+    (hb : hasNonsym (cones.map ConeSt.kktSpec) → E "backtrack_search: fuel")
+    (h : ConesFull cones) (h1 : dz.size = numelAll cones) (h2 : ds.size = numelAll cones)
+    (h3 : z.size = numelAll cones) (h4 : s.size = numelAll cones) :
+    OkOr E (stepLength ls cones dz ds z s msf amax) (fun _ => True) :=
+  ConesB.stepLength_okC hs ls cones dz ds z s msf amax hb h h1 h2 h3 h4
+
+/-- [S] field `computeBarrier` of `ConeStage E specs`, sharpened: the `_wright_omega` site is only
+needed when the composite (seen through its KKT view) has an exponential cone -/
+theorem computeBarrier_okC {E : String → Prop}
+    (cones : List (ConeSt α)) (z s dz ds : Array α) (a : α)
+    (hw : hasExp (cones.map ConeSt.kktSpec) → E "argument not in supported range")
+    (h : ConesFull cones) (h1 : z.size = numelAll cones) (h2 : s.size = numelAll cones)
+    (h3 : dz.size = numelAll cones) (h4 : ds.size = numelAll cones) :
+    OkOr E (computeBarrier cones z s dz ds a) (fun _ => True) :=
+  ConesB.computeBarrier_okC cones z s dz ds a hw h h1 h2 h3 h4
+
 /-- [S] field `unitInitialization` of `ConeStage E` -/
 theorem unitInitialization_ok (cones : List (ConeSt α)) (z s : Array α) (h : ConesFull cones)
     (h1 : z.size = numelAll cones) (h2 : s.size = numelAll cones) :
@@ -694,36 +772,73 @@ theorem symInit_ok (cones : List (ConeSt α)) (v : Vars α) (n m : Nat)
     (hv : VarsSized n m v) : OkAnd (symmetricInitialization v cones) (VarsSized n m) :=
   ConesB.symInit_ok cones v n m hsym h hm hv
 
-/-! ### the four fields, in the form `ConeStage` states them (a type-check of the statements) -/
+/-! ### the four fields, in the form `ConeStage E specs` states them (a type-check of the statements) -/
 
-example {E : String → Prop} (hf : FmaxOK α) (hb : E "backtrack_search: fuel") :
+/-- field `stepLength`, for any `E` containing the sites the composite `specs` can reach -/
+example {E : String → Prop} (specs : List Kkt.ConeSpec)
+    (hs : FmaxOK α ∨ E "starting point of line search not in SOC")
+    (hb : hasNonsym specs → E "backtrack_search: fuel") :
     ∀ (ls : LineSearch α) (cones : List (ConeSt α)) (dz ds z s : Array α) (msf amax : α),
     ConesFull cones → dz.size = numelAll cones → ds.size = numelAll cones → z.size = numelAll cones →
-    s.size = numelAll cones → OkOr E (stepLength ls cones dz ds z s msf amax) (fun _ => True) :=
-  stepLength_ok hf hb
+    s.size = numelAll cones →
+    cones.map ConeSt.kktSpec = specs → OkOr E (stepLength ls cones dz ds z s msf amax) (fun _ => True) :=
+  fun ls cones dz ds z s msf amax h h1 h2 h3 h4 hsp =>
+    stepLength_okC hs ls cones dz ds z s msf amax (fun hn => hb (hsp ▸ hn)) h h1 h2 h3 h4
 
-/-- with every panic site allowed the `stepLength` field needs no law of the scalar type -/
-example : ∀ (ls : LineSearch α) (cones : List (ConeSt α)) (dz ds z s : Array α) (msf amax : α),
+/-- field `stepLength` with `E := SiteFor specs` (the sharpened end theorem's site set) -/
+example (hf : FmaxOK α) (specs : List Kkt.ConeSpec) :
+    ∀ (ls : LineSearch α) (cones : List (ConeSt α)) (dz ds z s : Array α) (msf amax : α),
     ConesFull cones → dz.size = numelAll cones → ds.size = numelAll cones → z.size = numelAll cones →
     s.size = numelAll cones →
+    cones.map ConeSt.kktSpec = specs →
+    OkOr (SiteFor specs) (stepLength ls cones dz ds z s msf amax) (fun _ => True) :=
+  fun ls cones dz ds z s msf amax h h1 h2 h3 h4 hsp =>
+    stepLength_okC (Or.inl hf) ls cones dz ds z s msf amax
+      (fun hn => Or.inr ⟨rfl, hsp ▸ hn⟩) h h1 h2 h3 h4
+
+/-- with every panic site allowed the `stepLength` field needs no law of the scalar type -/
+example (specs : List Kkt.ConeSpec) :
+    ∀ (ls : LineSearch α) (cones : List (ConeSt α)) (dz ds z s : Array α) (msf amax : α),
+    ConesFull cones → dz.size = numelAll cones → ds.size = numelAll cones → z.size = numelAll cones →
+    s.size = numelAll cones →
+    cones.map ConeSt.kktSpec = specs →
     OkOr (fun _ => True) (stepLength ls cones dz ds z s msf amax) (fun _ => True) :=
-  stepLength_ok' (Or.inr trivial) trivial
+  fun ls cones dz ds z s msf amax h h1 h2 h3 h4 _ =>
+    stepLength_ok' (Or.inr trivial) trivial ls cones dz ds z s msf amax h h1 h2 h3 h4
 
-example : ∀ (cones : List (ConeSt α)) (z s : Array α), ConesFull cones →
+/-- field `unitInitialization` -/
+example (specs : List Kkt.ConeSpec) : ∀ (cones : List (ConeSt α)) (z s : Array α), ConesFull cones →
     z.size = numelAll cones → s.size = numelAll cones →
+    cones.map ConeSt.kktSpec = specs →
     OkAnd (unitInitialization cones z s) (fun o => o.1.size = z.size ∧ o.2.size = s.size) :=
-  unitInitialization_ok
+  fun cones z s h h1 h2 _ => unitInitialization_ok cones z s h h1 h2
 
-example {E : String → Prop} (hw : E "argument not in supported range") :
+/-- field `computeBarrier`, for any `E` containing the sites the composite `specs` can reach -/
+example {E : String → Prop} (specs : List Kkt.ConeSpec)
+    (hw : hasExp specs → E "argument not in supported range") :
     ∀ (cones : List (ConeSt α)) (z s dz ds : Array α) (a : α), ConesFull cones →
     z.size = numelAll cones → s.size = numelAll cones → dz.size = numelAll cones →
-    ds.size = numelAll cones → OkOr E (computeBarrier cones z s dz ds a) (fun _ => True) :=
-  computeBarrier_ok hw
+    ds.size = numelAll cones →
+    cones.map ConeSt.kktSpec = specs → OkOr E (computeBarrier cones z s dz ds a) (fun _ => True) :=
+  fun cones z s dz ds a h h1 h2 h3 h4 hsp =>
+    computeBarrier_okC cones z s dz ds a (fun he => hw (hsp ▸ he)) h h1 h2 h3 h4
 
-example : ∀ (cones : List (ConeSt α)) (v : Vars α) (n m : Nat), isSymmetric cones = true →
-    ConesFull cones → numelAll cones = m → VarsSized n m v →
+/-- field `computeBarrier` with `E := SiteFor specs` -/
+example (specs : List Kkt.ConeSpec) :
+    ∀ (cones : List (ConeSt α)) (z s dz ds : Array α) (a : α), ConesFull cones →
+    z.size = numelAll cones → s.size = numelAll cones → dz.size = numelAll cones →
+    ds.size = numelAll cones →
+    cones.map ConeSt.kktSpec = specs →
+    OkOr (SiteFor specs) (computeBarrier cones z s dz ds a) (fun _ => True) :=
+  fun cones z s dz ds a h h1 h2 h3 h4 hsp =>
+    computeBarrier_okC cones z s dz ds a (fun he => Or.inl ⟨rfl, hsp ▸ he⟩) h h1 h2 h3 h4
+
+/-- field `symInit` -/
+example (specs : List Kkt.ConeSpec) : ∀ (cones : List (ConeSt α)) (v : Vars α) (n m : Nat),
+    isSymmetric cones = true → ConesFull cones → numelAll cones = m → VarsSized n m v →
+    cones.map ConeSt.kktSpec = specs →
     OkAnd (symmetricInitialization v cones) (VarsSized n m) :=
-  symInit_ok
+  fun cones v n m hsym h hm hv _ => symInit_ok cones v n m hsym h hm hv
 
 /-! ### non-vacuity: one cone of each kind, sized as `make_cone` builds it -/
 
